@@ -54,7 +54,7 @@ class Contract:
         self.ensures = list(ensures)
         self.raises = dict(raises or {})
         self.loops = dict(loops or {})
-        self.returns = parse_ty(returns) if isinstance(returns, str) else returns
+        self.returns = returns if returns == "self" else (parse_ty(returns) if isinstance(returns, str) else returns)
         self.modifies = list(modifies) if modifies is not None else None
         self.frame = set(modifies) if modifies is not None else None
         self.frame_objects = set(frame_objects)
@@ -113,6 +113,9 @@ class Contract:
                 from .engine import lift
 
                 env[nm] = lift(d)
+        for nm, ad in getattr(self, "adapters", {}).items():
+            if nm in env:
+                env[nm] = ad(eng, env[nm], node)
         # coerce symbolic arguments into the declared parameter types where these are plain types
         for nm in names:
             pt = self.params[nm]
